@@ -8,7 +8,9 @@ import (
 	"bufio"
 	"fmt"
 	"io"
+	"os"
 	"os/exec"
+	"path/filepath"
 	"strconv"
 	"strings"
 	"time"
@@ -33,6 +35,16 @@ type Solver struct {
 	LastErr  string
 	buf      strings.Builder
 	transcript io.Writer
+	OneShots    int
+	OneShotWall time.Duration
+}
+
+// incTimeout is the per-query budget of the incremental process; harder queries go one-shot.
+func (s *Solver) incTimeout() int {
+	if s.timeout > 2500 {
+		return 2500
+	}
+	return s.timeout
 }
 
 func NewSolver(kind string, timeoutMs int) (*Solver, error) {
@@ -47,9 +59,9 @@ func (s *Solver) start() error {
 	var cmd *exec.Cmd
 	switch s.kind {
 	case "z3":
-		cmd = exec.Command("/usr/bin/z3", "-in", fmt.Sprintf("-t:%d", s.timeout))
+		cmd = exec.Command("/usr/bin/z3", "-in", fmt.Sprintf("-t:%d", s.incTimeout()))
 	case "z3-new":
-		cmd = exec.Command("z3-new", "-in", fmt.Sprintf("-t:%d", s.timeout))
+		cmd = exec.Command("z3-new", "-in", fmt.Sprintf("-t:%d", s.incTimeout()))
 	case "cvc5":
 		cmd = exec.Command("cvc5", "--incremental", "--produce-models", "--lang=smt2", fmt.Sprintf("--tlimit-per=%d", s.timeout))
 	default:
@@ -286,6 +298,17 @@ func (s *Solver) Check(assertions []*Term, wantVals []*Term) (string, map[int]ui
 		}
 	}
 	s.send("(pop 1)\n")
+	if res != "sat" && res != "unsat" && s.kind != "cvc5" {
+		// incremental core gave up: decide in a fresh process with the full tactic pipeline
+		r2, v2 := s.oneShot(assertions, wantVals, s.timeout)
+		if r2 != "unknown" {
+			res, vals = r2, v2
+		}
+	}
+	if d := os.Getenv("GOSMT_DUMP_SLOW"); d != "" && (time.Since(t0) > 2*time.Second || res == "unknown") {
+		os.MkdirAll(d, 0o755)
+		os.WriteFile(filepath.Join(d, fmt.Sprintf("q%d-%d-%s.smt2", os.Getpid(), s.Queries, res)), []byte(Standalone(assertions, "")), 0o644)
+	}
 	switch res {
 	case "sat":
 		s.Sat++
